@@ -8,7 +8,7 @@
      interval f       the decimals that read back as f: f -/+ half the distance to its neighbours, ends included
                       exactly when the mantissa is even
      shortest f       for k = 1 .. 17: the k-digit decimals just below and just above f; the first k that has one
-                      inside the interval wins, the closer of the two if both are
+                      inside the interval wins, the closer of the two if both are (a tie: the even last digit)
      emit_float_ryu   lex value -> round64 -> shortest -> FloatFmt.emit_float layout
 
    Exact arithmetic on N (numerators / denominators); executable, validated against the implementation on every float
@@ -103,7 +103,11 @@ Definition best (f : N * Z) (v : rat) (cs : list (N * Z)) : option (N * Z) :=
   match filter (fun c => negb (fst c =? 0) && in_interval f (dec_rat (fst c) (snd c))) cs with
   | [] => None
   | [c] => Some c
-  | c1 :: c2 :: _ => if rle (rdist (dec_rat (fst c1) (snd c1)) v) (rdist (dec_rat (fst c2) (snd c2)) v) then Some c1 else Some c2
+  | c1 :: c2 :: _ =>
+      let d1 := rdist (dec_rat (fst c1) (snd c1)) v in
+      let d2 := rdist (dec_rat (fst c2) (snd c2)) v in
+      if rlt d1 d2 then Some c1 else if rlt d2 d1 then Some c2
+      else if N.even (fst c1) then Some c1 else Some c2        (* exactly half way: the even last digit (core::num::flt2dec dragon) *)
   end.
 
 Fixpoint shortest_from (fuel : nat) (f : N * Z) (v : rat) (p : Z) (k : nat) : option (N * Z) :=
